@@ -66,3 +66,23 @@ def reach(tag):
     solver-feasible path got here.  The runner demands every tag a condition declares."""
     REACHED.add(tag)
     return True
+
+
+import contextlib
+
+
+def untraced():
+    """context manager: run a block outside CrossHair's tracer (only for code that touches concrete data:
+    oracles / structural comparison on values that are concrete on the current path)"""
+    if SYMBOLIC:
+        from crosshair.tracers import NoTracing
+        return NoTracing()
+    return contextlib.nullcontext()
+
+
+def is_concrete_str(s):
+    if not SYMBOLIC:
+        return True
+    from crosshair.tracers import NoTracing
+    with NoTracing():
+        return type(s) is str
